@@ -160,6 +160,21 @@ def l_bytes_checked(x=b"", *a):
     return lbytes.l_bytes(x, *a)
 
 
+def _lazy_range(n):
+    i = 0
+    while i < n:
+        yield i
+        i += 1
+
+
+def l_range(*a):
+    """range(n) for a symbolic n decides `i < n` one iteration at a time (a loop that leaves early never
+    fixes the exact count); the real range would realise n: one path per value"""
+    if len(a) == 1 and not lbytes._is_conc(a[0]):
+        return _lazy_range(a[0])
+    return range(*a)
+
+
 class _Log:
     """twisted.python.log stand-in: formatting symbolic values for a log line would realise them"""
     @staticmethod
@@ -172,7 +187,7 @@ class _Log:
 
 
 def lift_dns(extra=None):
-    sh = {"BytesIO": DnsIO, "ord": l_ord, "struct": DnsStruct, "_vl_bytes": l_bytes_checked, "set": lbytes.SymSet}
+    sh = {"BytesIO": DnsIO, "ord": l_ord, "struct": DnsStruct, "_vl_bytes": l_bytes_checked, "set": lbytes.SymSet, "range": l_range}
     if extra:
         sh.update(extra)
     L = lift.lift("twisted.names.dns", names=None, overrides={"log": _Log}, extra_shims=sh, bitops=True)
@@ -612,9 +627,9 @@ def _rr_shards(tier):
         return _RR_SHARDS
     out = []
     for sh in _RR_SHARDS:
-        if sh[0] == "ki == 3":      # SOA: 3 sign cases per signed field; split further in the quick tier
-            out.append(sh + ("ni <= 1 and comp",))
-            out.append(sh + ("ni <= 1 and not comp",))
+        if sh[0] == "ki == 3":      # SOA: 2 sign cases per signed field; smaller name menu in the quick tier
+            out.append(sh + ("ni <= 1 and pi <= 1 and comp",))
+            out.append(sh + ("ni <= 1 and pi <= 1 and not comp",))
         else:
             out.append(sh)
     return out
@@ -632,7 +647,8 @@ HARNESSES = [
     H(hdr_rt),
     H(msg_rt, shards=[("nq == %d" % a, "na == %d" % c) for a in range(3) for c in range(3)],
       timeout={"quick": 90, "thorough": 1200}),
-    H(trunc, shards=[("nq == 0",), ("nq == 1",)], timeout={"quick": 120, "thorough": 900}),
+    H(trunc, shards=lambda tier: [("nq == 1",)] if tier == "quick" else [("nq == 0",), ("nq == 1",)],
+      timeout={"quick": 120, "thorough": 900}),
     H(overlong, shards=[("kind == 0",), ("kind == 1", "i < %d" % len(TOTALS))]),
 ]
 
